@@ -25,6 +25,8 @@ def gen_config(rnd, S, opts=None):
                "dividend_reinvestment": rnd.random() < opts.get("p_reinvest", 0.25),
                "cash_return_by_stock_delisted": rnd.random() < 0.85,
                "futures_settlement_price_type": rnd.choice(["close", "settlement"])}
+    if opts.get("otp"):
+        S["_otp"] = True                 # order_target_portfolio calls with per-instrument limit prices
     if opts.get("frac_fut"):
         S["_frac_fut"] = True            # futures requests may carry fractional lot counts (truncated toward zero by the API)
     if opts.get("p_auto_switch") and rnd.random() < opts["p_auto_switch"]:
@@ -295,6 +297,23 @@ def run_trading(rnd, S, cfgk, intensity=1.0, script=None, analyser=False, ids=No
                             call.update(api="order_shares", args=(oid, q, None))
                             return api.order_shares(oid, q)
                         out.append(f6)
+        # order_target_portfolio with the caller's limit prices (plain price, LimitOrder, or an (open, close) pair)
+        if S.get("_otp") and stocks and "STOCK" in context.portfolio.accounts and reseed_key is None and srnd.random() < 0.2:
+            picks = srnd.sample(stocks, min(len(stocks), srnd.choice([1, 2])))
+            targets, lim = {}, {}
+            for oid in picks:
+                targets[oid] = srnd.choice([0.0, 0.1, 0.2, 0.4])
+                price = env.get_last_price(oid)
+                if price == price and price > 0 and srnd.random() < 0.7:
+                    lo = round(price * srnd.choice([0.97, 0.99, 1.0, 1.01, 1.03]), 2)
+                    hi = round(price * srnd.choice([0.97, 0.99, 1.0, 1.01, 1.03]), 2)
+                    lim[oid] = (srnd.choice(["price", "style", "pair"]), lo, hi)
+
+            def f7(call, before, targets=targets, lim=lim):
+                styles = {o_: (lo if form == "price" else LimitOrder(lo) if form == "style" else (LimitOrder(lo), LimitOrder(hi))) for o_, (form, lo, hi) in lim.items()}
+                call.update(api="order_target_portfolio", args=(targets, {o_: ((lo, hi) if form == "pair" else (lo, lo)) for o_, (form, lo, hi) in lim.items()}))
+                return api.order_target_portfolio(targets, styles)
+            out.append(f7)
         # the whole holding sold on the ex-dividend date (receivable still pending)
         today8 = B.d8(env.trading_dt.date())
         if "STOCK" in context.portfolio.accounts:
